@@ -205,6 +205,7 @@ func labWalk(seed int64, momentums int, htlc bool, enforced bool, stalls bool, t
 
 type ledgerFamilyOpts struct {
 	locks       bool // also replay the Locks.tla behaviours (C10)
+	bridge      bool // also replay the Bridge.tla behaviours (C10, C09)
 	prop        string
 	invariants  string // invariants of LedgerTrace evaluated at every event
 	repoPattern string // tests of vm/embedded/tests traced in the quick tier
@@ -295,6 +296,9 @@ func ledgerFamily(run *core.Run, o ledgerFamilyOpts) {
 	}
 	if o.locks {
 		runs = append(runs, locksCheck(run, o.prop)...)
+	}
+	if o.bridge {
+		runs = append(runs, bridgeCheck(run, o.prop)...)
 	}
 	run.Set("lab_walks", walkStats)
 	run.Set("lab_walk_methods_accepted", methods)
